@@ -18,8 +18,4 @@ theorem outcome_forms (today : Int) (argv : List Bytes) :
     ∨ ∃ s, main today argv = .out s := by
   cases h : main today argv <;> simp [showOutcome]
 
-/-- -h is honoured whatever accompanies it (even invalid arguments) -/
-theorem early_exit_example :
-    parseCommand [bytesOf "-h", bytesOf "not-a-date", bytesOf "-x"] = .help := rfl
-
 end JV.C19
